@@ -587,4 +587,149 @@ theorem statsRaster_fixed (zones : Nat → X κ) (values : Nat → ν) (cells pe
   · funext j
     exact foldl_scatter zones perm (zoneStat zones values valid nanρ f perm) W (fun _ => nanρ) j
 
+
+/-! ### the unrepaired gather (only `sorted_zones` stripped) agrees when no zone cell is -inf -/
+
+theorem keys_strip_irrelevant (zones : Nat → X κ) (perm : List Nat) :
+    (perm.map zones).filterMap X.toFin?
+      = ((perm.filter (fun i => (zones i).isFin)).map zones).filterMap X.toFin? := by
+  induction perm with
+  | nil => rfl
+  | cons i l ih => cases h : zones i <;> simp_all [X.isFin, X.toFin?, List.filter, List.filterMap]
+
+theorem strides_le (fz : List κ) (c : Nat) (us : List κ) : ∀ e ∈ strides fz c us, c ≤ e ∧ e ≤ c + fz.length := by
+  induction us generalizing fz c with
+  | nil => simp [strides]
+  | cons u us ih =>
+    intro e he
+    simp only [strides, List.mem_cons] at he
+    have hk : (fz.takeWhile (· == u)).length ≤ fz.length := (List.takeWhile_sublist _).length_le
+    rcases he with rfl | he
+    · omega
+    · have := ih (fz.drop (fz.takeWhile (· == u)).length) (c + (fz.takeWhile (· == u)).length) e he
+      simp only [List.length_drop] at this
+      omega
+
+theorem strides_mono (fz : List κ) (c : Nat) (us : List κ) : (strides fz c us).Pairwise (· ≤ ·) := by
+  induction us generalizing fz c with
+  | nil => simp [strides]
+  | cons u us ih =>
+    simp only [strides, List.pairwise_cons]
+    refine ⟨?_, ih _ _⟩
+    intro e he
+    exact (strides_le _ _ _ e he).1
+
+/-- slices taken inside a prefix do not see what follows the prefix -/
+theorem zoneSlices_prefix {α : Type} (a r : List α) (start : Nat) (bs : List Nat)
+    (hs : start ≤ a.length) (hb : ∀ e ∈ bs, e ≤ a.length) (hm : bs.Pairwise (· ≤ ·)) (h0 : ∀ e ∈ bs, start ≤ e) :
+    zoneSlices (a ++ r) start bs = zoneSlices a start bs := by
+  induction bs generalizing start with
+  | nil => rfl
+  | cons e bs ih =>
+    rw [List.pairwise_cons] at hm
+    have he := hb e (by simp)
+    have hse := h0 e (by simp)
+    simp only [zoneSlices]
+    congr 1
+    · rw [List.drop_append_of_le_length hs, List.take_append_of_le_length]
+      simp only [List.length_drop]; omega
+    · exact ih e he (fun x hx => hb x (List.mem_cons_of_mem _ hx)) hm.2 (fun x hx => hm.1 x hx)
+
+/-- without -inf keys the finite keys form a prefix of any sorted permutation -/
+theorem finite_prefix (zones : Nat → X κ) (perm : List Nat)
+    (hs : (perm.map zones).Pairwise (fun a b => X.sortLe a b = true))
+    (hno : ∀ i ∈ perm, zones i ≠ .ninf) :
+    ∃ rest, perm = perm.filter (fun i => (zones i).isFin) ++ rest := by
+  induction perm with
+  | nil => exact ⟨[], rfl⟩
+  | cons i l ih =>
+    rw [List.map_cons, List.pairwise_cons] at hs
+    obtain ⟨rest, hr⟩ := ih hs.2 (fun j hj => hno j (List.mem_cons_of_mem _ hj))
+    cases hz : zones i with
+    | fin k =>
+      refine ⟨rest, ?_⟩
+      have hi : (zones i).isFin = true := by rw [hz]; rfl
+      rw [List.filter_cons_of_pos (p := fun i => (zones i).isFin) (a := i) hi, List.cons_append, ← hr]
+    | ninf => exact absurd hz (hno i (by simp))
+    | nan =>
+      refine ⟨i :: l, ?_⟩
+      have : l.filter (fun j => (zones j).isFin) = [] := by
+        rw [List.filter_eq_nil_iff]
+        intro j hj
+        have h1 := hs.1 (zones j) (List.mem_map.mpr ⟨j, hj, rfl⟩)
+        rw [hz] at h1
+        cases hzj : zones j with
+        | fin q => rw [hzj] at h1; simp [X.sortLe, X.rank] at h1
+        | _ => simp [X.isFin]
+      have hi : ¬ ((zones i).isFin = true) := by rw [hz]; simp [X.isFin]
+      rw [List.filter_cons_of_neg (p := fun i => (zones i).isFin) (a := i) hi, this]; rfl
+    | pinf =>
+      refine ⟨i :: l, ?_⟩
+      have : l.filter (fun j => (zones j).isFin) = [] := by
+        rw [List.filter_eq_nil_iff]
+        intro j hj
+        have h1 := hs.1 (zones j) (List.mem_map.mpr ⟨j, hj, rfl⟩)
+        rw [hz] at h1
+        cases hzj : zones j with
+        | fin q => rw [hzj] at h1; simp [X.sortLe, X.rank] at h1
+        | _ => simp [X.isFin]
+      have hi : ¬ ((zones i).isFin = true) := by rw [hz]; simp [X.isFin]
+      rw [List.filter_cons_of_neg (p := fun i => (zones i).isFin) (a := i) hi, this]; rfl
+
+/-- **the forced hypothesis**: when no zone cell is -inf, stripping only `sorted_zones` (the
+    unrepaired `_sort_and_stride`) cuts the same slices as the repaired code -/
+theorem slices_unrepaired_eq (zones : Nat → X κ) (values : Nat → ν) (perm : List Nat) (uniq : List κ)
+    (hs : (perm.map zones).Pairwise (fun a b => X.sortLe a b = true))
+    (hno : ∀ i ∈ perm, zones i ≠ .ninf) :
+    let a := sortAndStride false zones values uniq perm
+    let b := sortAndStride true zones values uniq perm
+    a.breaks = b.breaks ∧ zoneSlices a.vbz 0 a.breaks = zoneSlices b.vbz 0 b.breaks := by
+  intro a b
+  have hb : a.breaks = b.breaks := by
+    show strides _ 0 uniq = strides _ 0 uniq
+    simp only [if_true, Bool.false_eq_true, if_false]
+    rw [keys_strip_irrelevant]
+  refine ⟨hb, ?_⟩
+  obtain ⟨rest, hr⟩ := finite_prefix zones perm hs hno
+  have hv : a.vbz = b.vbz ++ rest.map values := by
+    show perm.map values = (perm.filter _).map values ++ _
+    rw [← List.map_append, ← hr]
+  rw [hv, hb]
+  have hlen : b.vbz.length = (((perm.filter (fun i => (zones i).isFin)).map zones).filterMap X.toFin?).length := by
+    show ((perm.filter _).map values).length = _
+    have : ∀ l : List Nat, (∀ i ∈ l, (zones i).isFin = true) → ((l.map zones).filterMap X.toFin?).length = l.length := by
+      intro l hl
+      induction l with
+      | nil => rfl
+      | cons i l ih =>
+        have hi := hl i (by simp)
+        have ih' := ih (fun j hj => hl j (List.mem_cons_of_mem _ hj))
+        cases hz : zones i with
+        | fin q =>
+          rw [List.map_cons, hz, List.filterMap_cons_some (by rfl : X.toFin? (X.fin q) = some q),
+            List.length_cons, List.length_cons, ih']
+        | nan => rw [hz] at hi; simp [X.isFin] at hi
+        | ninf => rw [hz] at hi; simp [X.isFin] at hi
+        | pinf => rw [hz] at hi; simp [X.isFin] at hi
+    rw [this _ (fun i hi => (List.mem_filter.mp hi).2)]
+    simp
+  apply zoneSlices_prefix
+  · omega
+  · intro e he
+    have := (strides_le _ 0 uniq e he).2
+    rw [hlen]; simpa using this
+  · exact strides_mono _ _ _
+  · intro e _; omega
+
+
+theorem statsNumpy_unrepaired_eq (zones : Nat → X κ) (values : Nat → ν) (cells perm : List Nat)
+    (valid : ν → Bool) (nanρ : ρ) (funcs : List (List ν → ρ)) (zoneIds : Option (List κ))
+    (hs : (perm.map zones).Pairwise (fun a b => X.sortLe a b = true))
+    (hno : ∀ i ∈ perm, zones i ≠ .ninf) :
+    statsNumpy false zones values cells valid nanρ funcs zoneIds perm
+      = statsNumpy true zones values cells valid nanρ funcs zoneIds perm := by
+  unfold statsNumpy calcStats
+  simp only
+  rw [(slices_unrepaired_eq zones values perm (uniqueZones zones cells) hs hno).2]
+
 end XrsVerif.Zonal
